@@ -491,9 +491,9 @@ def hook_parse(t, role, log):
 
 def run(ctx):
     kexbench.modulus_pack()
-    stratum_crafted(ctx, ctx.pick(4000, 22000))
-    stratum_honest(ctx, ctx.pick(1500, 8000))
-    stratum_handshakes(ctx, ctx.pick(22, 40), ctx.pick(60, 400))
+    stratum_crafted(ctx, ctx.pick(3000, 18000))
+    stratum_honest(ctx, ctx.pick(1000, 6000))
+    stratum_handshakes(ctx, ctx.pick(18, 36), ctx.pick(90, 600))
     ctx.require("negotiations_judged", ctx.pick(5000, 50000))
     ctx.require("negotiations_judged_crafted_client", 500)
     ctx.require("negotiations_judged_crafted_server", 500)
